@@ -1461,4 +1461,275 @@ not `panic`, on all generated `polygon_feature` cases). -/
 example : (0:ℝ) ≤ 1/2 ∧ ((⟨0, -2, 1⟩ : V3 ℝ).x ≠ 0 ∨ (⟨0, -2, 1⟩ : V3 ℝ).y ≠ 0 ∨ (⟨0, -2, 1⟩ : V3 ℝ).z ≠ 0) := by norm_num
 example : (0:ℚ) ≤ (⟨1, 2⟩ : V2 ℚ).x ∧ (0:ℚ) < (⟨1, 2⟩ : V2 ℚ).y ∧ (0:ℚ) < 3/2 := by norm_num
 
+/-! ## near-zero directions: the support point does not depend on the length of the direction
+
+The property quantifies over *all* non-zero directions, "near-zero ones" included.  In exact arithmetic every
+`local_support_point` is invariant under positive scaling of `dir`, so a tiny direction must give the same point
+as the ordinary one it is a multiple of; any norm threshold in the code (other than "exactly zero") breaks this. -/
+
+private theorem sqrt_unique (hs : LawfulSqrt sq) {x y : K} (hy : 0 ≤ y) (h : y * y = x) : sq x = y := by
+  have hx : 0 ≤ x := by rw [← h]; exact mul_self_nonneg y
+  have h1 := hs.nonneg x hx
+  have h2 := hs.sq_mul x hx
+  have h3 : sq x * sq x = y * y := by rw [h2, h]
+  rcases mul_self_eq_mul_self_iff.1 h3 with e | e
+  · exact e
+  · exact le_antisymm (by linarith) (by linarith)
+
+private theorem normalize3_scale (hs : LawfulSqrt sq) (dir : V3 K) (s : K) (hs0 : 0 < s)
+    (hd : dir.x ≠ 0 ∨ dir.y ≠ 0 ∨ dir.z ≠ 0) :
+    letI := fieldNum K sq
+    normalize3 (dir.smul s) = normalize3 dir := by
+  have hpos := sumsq3_pos hd
+  have hn := norm_pos_of hs hpos
+  have hnn := hs.sq_mul _ hpos.le
+  have hsq : sq (dir.x * s * (dir.x * s) + dir.y * s * (dir.y * s) + dir.z * s * (dir.z * s))
+      = s * sq (dir.x * dir.x + dir.y * dir.y + dir.z * dir.z) := by
+    apply sqrt_unique sq hs (mul_nonneg hs0.le hn.le)
+    linear_combination (s * s) * hnn
+  have hne := ne_of_gt hn
+  have hse := ne_of_gt hs0
+  simp only [normalize3, V3.norm, V3.normSq, V3.dot, V3.smul, V3.sdiv, fieldNum_sqrt]
+  rw [hsq]
+  apply v3_ext <;> simp only [] <;> field_simp
+
+private theorem normalize2_scale (hs : LawfulSqrt sq) (dir : V2 K) (s : K) (hs0 : 0 < s)
+    (hd : dir.x ≠ 0 ∨ dir.y ≠ 0) :
+    letI := fieldNum K sq
+    normalize2 (dir.smul s) = normalize2 dir := by
+  have hpos := sumsq2_pos hd
+  have hn := norm_pos_of hs hpos
+  have hnn := hs.sq_mul _ hpos.le
+  have hsq : sq (dir.x * s * (dir.x * s) + dir.y * s * (dir.y * s))
+      = s * sq (dir.x * dir.x + dir.y * dir.y) := by
+    apply sqrt_unique sq hs (mul_nonneg hs0.le hn.le)
+    linear_combination (s * s) * hnn
+  have hne := ne_of_gt hn
+  have hse := ne_of_gt hs0
+  simp only [normalize2, V2.norm, V2.normSq, V2.dot, V2.smul, V2.sdiv, fieldNum_sqrt]
+  rw [hsq]
+  apply v2_ext <;> simp only [] <;> field_simp
+
+/-- on a non-zero direction `Capsule::local_support_point` is `_toward` of the normalised direction
+(`Unit::try_new(dir, 0.0)` succeeds: the threshold is *zero*, not an epsilon) -/
+private theorem capsuleLocal3_eq (a b : V3 K) (r : K) (dir : V3 K) (hd : dir.x ≠ 0 ∨ dir.y ≠ 0 ∨ dir.z ≠ 0) :
+    letI := fieldNum K sq
+    capsuleLocal3 a b r dir = capsuleToward3 a b r (normalize3 dir) := by
+  have hpos := sumsq3_pos hd
+  have htn : @tryNew3 K (fieldNum K sq) dir 0 = some (@normalize3 K (fieldNum K sq) dir) := by
+    simp only [tryNew3]
+    split_ifs with h
+    · rfl
+    · exact absurd (by simpa [V3.normSq, V3.dot] using hpos) h
+  unfold capsuleLocal3; rw [htn]; rfl
+private theorem capsuleLocal2_eq (a b : V2 K) (r : K) (dir : V2 K) (hd : dir.x ≠ 0 ∨ dir.y ≠ 0) :
+    letI := fieldNum K sq
+    capsuleLocal2 a b r dir = capsuleToward2 a b r (normalize2 dir) := by
+  have hpos := sumsq2_pos hd
+  have htn : @tryNew2 K (fieldNum K sq) dir 0 = some (@normalize2 K (fieldNum K sq) dir) := by
+    simp only [tryNew2]
+    split_ifs with h
+    · rfl
+    · exact absurd (by simpa [V2.normSq, V2.dot] using hpos) h
+  unfold capsuleLocal2; rw [htn]; rfl
+
+private theorem smul_ne3 (dir : V3 K) (s : K) (hs0 : 0 < s) (hd : dir.x ≠ 0 ∨ dir.y ≠ 0 ∨ dir.z ≠ 0) :
+    letI := fieldNum K sq
+    (dir.smul s).x ≠ 0 ∨ (dir.smul s).y ≠ 0 ∨ (dir.smul s).z ≠ 0 := by
+  simp only [V3.smul]
+  rcases hd with h | h | h
+  · exact Or.inl (mul_ne_zero h (ne_of_gt hs0))
+  · exact Or.inr (Or.inl (mul_ne_zero h (ne_of_gt hs0)))
+  · exact Or.inr (Or.inr (mul_ne_zero h (ne_of_gt hs0)))
+private theorem smul_ne2 (dir : V2 K) (s : K) (hs0 : 0 < s) (hd : dir.x ≠ 0 ∨ dir.y ≠ 0) :
+    letI := fieldNum K sq
+    (dir.smul s).x ≠ 0 ∨ (dir.smul s).y ≠ 0 := by
+  simp only [V2.smul]
+  rcases hd with h | h
+  · exact Or.inl (mul_ne_zero h (ne_of_gt hs0))
+  · exact Or.inr (mul_ne_zero h (ne_of_gt hs0))
+
+/-- **C10 (near-zero directions; ball, capsule, RoundShape/DilatedShape — the normalise-then-scale shapes)**:
+for every non-zero direction and every scale `s > 0`, however small, `local_support_point(s·dir) =
+local_support_point(dir)` (3-D and 2-D).  In particular the capsule's `Unit::try_new(dir, 0.0)` may only fall back
+to `+Y` for the *zero* vector. -/
+theorem scale_invariant_normalising (hs : LawfulSqrt sq) (s : K) (hs0 : 0 < s)
+    (dir : V3 K) (hd : dir.x ≠ 0 ∨ dir.y ≠ 0 ∨ dir.z ≠ 0) (dir2 : V2 K) (hd2 : dir2.x ≠ 0 ∨ dir2.y ≠ 0)
+    (r : K) (a b : V3 K) (a2 b2 : V2 K) (inner : V3 K → V3 K) (inner2 : V2 K → V2 K) :
+    letI := fieldNum K sq
+    ballLocal3 r (dir.smul s) = ballLocal3 r dir ∧
+    capsuleLocal3 a b r (dir.smul s) = capsuleLocal3 a b r dir ∧
+    roundLocal3 inner r (dir.smul s) = roundLocal3 inner r dir ∧
+    ballLocal2 r (dir2.smul s) = ballLocal2 r dir2 ∧
+    capsuleLocal2 a2 b2 r (dir2.smul s) = capsuleLocal2 a2 b2 r dir2 ∧
+    roundLocal2 inner2 r (dir2.smul s) = roundLocal2 inner2 r dir2 := by
+  have h3 := normalize3_scale sq hs dir s hs0 hd
+  have h2 := normalize2_scale sq hs dir2 s hs0 hd2
+  refine ⟨?_, ?_, ?_, ?_, ?_, ?_⟩
+  · unfold ballLocal3; rw [h3]
+  · rw [capsuleLocal3_eq sq a b r _ (smul_ne3 sq dir s hs0 hd), capsuleLocal3_eq sq a b r _ hd, h3]
+  · unfold roundLocal3; rw [h3]
+  · unfold ballLocal2; rw [h2]
+  · rw [capsuleLocal2_eq sq a2 b2 r _ (smul_ne2 sq dir2 s hs0 hd2), capsuleLocal2_eq sq a2 b2 r _ hd2, h2]
+  · unfold roundLocal2; rw [h2]
+
+example : (0:ℝ) < 1 / 2 ^ 1000 ∧ ((⟨1, -2, 0⟩ : V3 ℝ).x ≠ 0 ∨ (⟨1, -2, 0⟩ : V3 ℝ).y ≠ 0 ∨ (⟨1, -2, 0⟩ : V3 ℝ).z ≠ 0) := by
+  constructor
+  · positivity
+  · norm_num
+
+private theorem copysign_scale (h d s : K) (hs0 : 0 < s) :
+    letI := fieldNum K sq
+    copysign h (d * s) = copysign h d := by
+  rw [copysign_field, copysign_field]
+  have : d * s < 0 ↔ d < 0 := by
+    constructor
+    · intro h1; by_contra h2; push Not at h2; nlinarith [mul_nonneg h2 hs0.le]
+    · intro h1; nlinarith
+  simp only [this]
+
+private theorem dot_smul3 (v d : V3 K) (s : K) : letI := fieldNum K sq; v.dot (d.smul s) = v.dot d * s := by
+  simp only [V3.dot, V3.smul]; ring
+private theorem dot_smul2 (v d : V2 K) (s : K) : letI := fieldNum K sq; v.dot (d.smul s) = v.dot d * s := by
+  simp only [V2.dot, V2.smul]; ring
+
+private theorem cloudGo3_scale (d : V3 K) (s : K) (hs0 : 0 < s) :
+    letI := fieldNum K sq
+    ∀ (ps : List (V3 K)) (i best : Nat) (bd : K),
+      cloudGo3 (d.smul s) ps i best (bd * s) = cloudGo3 d ps i best bd := by
+  intro ps
+  induction ps with
+  | nil => intro i best bd; rfl
+  | cons p ps ih =>
+    intro i best bd
+    unfold cloudGo3
+    simp only [dot_smul3, mul_lt_mul_iff_left₀ hs0]
+    split_ifs
+    · exact ih _ _ _
+    · exact ih _ _ _
+private theorem cloudGo2_scale (d : V2 K) (s : K) (hs0 : 0 < s) :
+    letI := fieldNum K sq
+    ∀ (ps : List (V2 K)) (i best : Nat) (bd : K),
+      cloudGo2 (d.smul s) ps i best (bd * s) = cloudGo2 d ps i best bd := by
+  intro ps
+  induction ps with
+  | nil => intro i best bd; rfl
+  | cons p ps ih =>
+    intro i best bd
+    unfold cloudGo2
+    simp only [dot_smul2, mul_lt_mul_iff_left₀ hs0]
+    split_ifs
+    · exact ih _ _ _
+    · exact ih _ _ _
+
+/-- **C10 (near-zero directions; cuboid, segment, triangle, point clouds / convex polyhedra / polygons)**: for
+*every* direction and every scale `s > 0`, `local_support_point(s·dir) = local_support_point(dir)` and
+`point_cloud_support_point_id(s·dir) = point_cloud_support_point_id(dir)` — these shapes only compare signs and
+dot products, which scale. -/
+theorem scale_invariant_polytopes (s : K) (hs0 : 0 < s) (dir : V3 K) (dir2 : V2 K)
+    (he a b c : V3 K) (he2 a2 b2 c2 : V2 K) (pts : List (V3 K)) (pts2 : List (V2 K)) :
+    letI := fieldNum K sq
+    cuboidLocal3 he (dir.smul s) = cuboidLocal3 he dir ∧
+    segmentLocal3 a b (dir.smul s) = segmentLocal3 a b dir ∧
+    triangleLocal3 a b c (dir.smul s) = triangleLocal3 a b c dir ∧
+    cloudId3 (dir.smul s) pts = cloudId3 dir pts ∧ cloudPoint3 (dir.smul s) pts = cloudPoint3 dir pts ∧
+    cuboidLocal2 he2 (dir2.smul s) = cuboidLocal2 he2 dir2 ∧
+    segmentLocal2 a2 b2 (dir2.smul s) = segmentLocal2 a2 b2 dir2 ∧
+    triangleLocal2 a2 b2 c2 (dir2.smul s) = triangleLocal2 a2 b2 c2 dir2 ∧
+    cloudId2 (dir2.smul s) pts2 = cloudId2 dir2 pts2 ∧ cloudPoint2 (dir2.smul s) pts2 = cloudPoint2 dir2 pts2 := by
+  have hid3 : @cloudId3 K (fieldNum K sq) (@V3.smul K (fieldNum K sq) dir s) pts = @cloudId3 K (fieldNum K sq) dir pts := by
+    cases pts with
+    | nil => rfl
+    | cons p ps => simp only [cloudId3, dot_smul3, cloudGo3_scale sq dir s hs0]
+  have hid2 : @cloudId2 K (fieldNum K sq) (@V2.smul K (fieldNum K sq) dir2 s) pts2 = @cloudId2 K (fieldNum K sq) dir2 pts2 := by
+    cases pts2 with
+    | nil => rfl
+    | cons p ps => simp only [cloudId2, dot_smul2, cloudGo2_scale sq dir2 s hs0]
+  refine ⟨?_, ?_, ?_, hid3, ?_, ?_, ?_, ?_, hid2, ?_⟩
+  · simp only [cuboidLocal3, V3.smul, copysign_scale sq _ _ s hs0]
+  · simp only [segmentLocal3, dot_smul3, mul_lt_mul_iff_left₀ hs0]
+  · simp only [triangleLocal3, dot_smul3, mul_lt_mul_iff_left₀ hs0]
+  · simp only [cloudPoint3, hid3]
+  · simp only [cuboidLocal2, V2.smul, copysign_scale sq _ _ s hs0]
+  · simp only [segmentLocal2, dot_smul2, mul_lt_mul_iff_left₀ hs0]
+  · simp only [triangleLocal2, dot_smul2, mul_lt_mul_iff_left₀ hs0]
+  · simp only [cloudPoint2, hid2]
+
+private theorem cylinderLocal_form (hh r : K) (dir : V3 K) :
+    letI := fieldNum K sq
+    cylinderLocal hh r dir =
+      if sq (dir.x * dir.x + 0 * 0 + dir.z * dir.z) = 0 then ⟨0, copysign hh dir.y, 0⟩
+      else ⟨dir.x / sq (dir.x * dir.x + 0 * 0 + dir.z * dir.z) * r, copysign hh dir.y,
+            dir.z / sq (dir.x * dir.x + 0 * 0 + dir.z * dir.z) * r⟩ := by
+  have hnorm : @V3.norm K (fieldNum K sq) ⟨dir.x, 0, dir.z⟩ = sq (dir.x * dir.x + 0 * 0 + dir.z * dir.z) := rfl
+  rcases Bool.eq_false_or_eq_true (@neq K (fieldNum K sq) (@V3.norm K (fieldNum K sq) ⟨dir.x, 0, dir.z⟩) 0) with hb | hb
+  · rw [hnorm] at hb
+    have h0 := (neq_field sq _ _).1 hb
+    simp only [cylinderLocal, hnorm, hb, if_true, V3.zero]
+    rw [if_pos h0]
+  · rw [hnorm] at hb
+    have h0 : sq (dir.x * dir.x + 0 * 0 + dir.z * dir.z) ≠ 0 := by
+      intro h; rw [(neq_field sq _ _).2 h] at hb; exact Bool.noConfusion hb
+    simp only [cylinderLocal, hnorm, hb, Bool.false_eq_true, if_false, V3.sdiv, V3.smul]
+    rw [if_neg h0]
+
+private theorem coneLocal_form (hh r : K) (dir : V3 K) :
+    letI := fieldNum K sq
+    coneLocal hh r dir =
+      if sq (dir.x * dir.x + 0 * 0 + dir.z * dir.z) = 0 then ⟨0, copysign hh dir.y, 0⟩
+      else if dir.x * (dir.x / sq (dir.x * dir.x + 0 * 0 + dir.z * dir.z) * r) + dir.y * -hh
+              + dir.z * (dir.z / sq (dir.x * dir.x + 0 * 0 + dir.z * dir.z) * r) < dir.y * hh then ⟨0, hh, 0⟩
+      else ⟨dir.x / sq (dir.x * dir.x + 0 * 0 + dir.z * dir.z) * r, -hh,
+            dir.z / sq (dir.x * dir.x + 0 * 0 + dir.z * dir.z) * r⟩ := by
+  have hnorm : @V3.norm K (fieldNum K sq) ⟨dir.x, 0, dir.z⟩ = sq (dir.x * dir.x + 0 * 0 + dir.z * dir.z) := rfl
+  rcases Bool.eq_false_or_eq_true (@neq K (fieldNum K sq) (@V3.norm K (fieldNum K sq) ⟨dir.x, 0, dir.z⟩) 0) with hb | hb
+  · rw [hnorm] at hb
+    have h0 := (neq_field sq _ _).1 hb
+    simp only [coneLocal, hnorm, hb, if_true]
+    rw [if_pos h0]
+  · rw [hnorm] at hb
+    have h0 : sq (dir.x * dir.x + 0 * 0 + dir.z * dir.z) ≠ 0 := by
+      intro h; rw [(neq_field sq _ _).2 h] at hb; exact Bool.noConfusion hb
+    simp only [coneLocal, hnorm, hb, Bool.false_eq_true, if_false, V3.sdiv, V3.smul, V3.dot]
+    rw [if_neg h0]
+
+/-- **C10 (near-zero directions; cylinder, cone)**: for every direction and every scale `s > 0`,
+`local_support_point(s·dir) = local_support_point(dir)`: the only norm test in the code is "exactly zero". -/
+theorem scale_invariant_revolution (hs : LawfulSqrt sq) (s : K) (hs0 : 0 < s) (hh r : K) (dir : V3 K) :
+    letI := fieldNum K sq
+    cylinderLocal hh r (dir.smul s) = cylinderLocal hh r dir ∧ coneLocal hh r (dir.smul s) = coneLocal hh r dir := by
+  obtain ⟨hn0, hnn⟩ := xz_norm sq hs dir.x dir.z
+  have hse := ne_of_gt hs0
+  have hsq : sq (dir.x * s * (dir.x * s) + 0 * 0 + dir.z * s * (dir.z * s))
+      = s * sq (dir.x * dir.x + 0 * 0 + dir.z * dir.z) := by
+    apply sqrt_unique sq hs (mul_nonneg hs0.le hn0)
+    linear_combination (s * s) * hnn
+  have hzero : s * sq (dir.x * dir.x + 0 * 0 + dir.z * dir.z) = 0 ↔ sq (dir.x * dir.x + 0 * 0 + dir.z * dir.z) = 0 := by
+    constructor
+    · intro h; exact (mul_eq_zero.1 h).resolve_left hse
+    · intro h; rw [h, mul_zero]
+  rw [cylinderLocal_form, cylinderLocal_form, coneLocal_form, coneLocal_form]
+  simp only [V3.smul, hsq, hzero, copysign_scale sq _ _ s hs0]
+  by_cases h0 : sq (dir.x * dir.x + 0 * 0 + dir.z * dir.z) = 0
+  · simp only [h0, if_true, and_self]
+  · simp only [h0, if_false]
+    have e1 : dir.x * s / (s * sq (dir.x * dir.x + 0 * 0 + dir.z * dir.z)) * r
+        = dir.x / sq (dir.x * dir.x + 0 * 0 + dir.z * dir.z) * r := by field_simp
+    have e2 : dir.z * s / (s * sq (dir.x * dir.x + 0 * 0 + dir.z * dir.z)) * r
+        = dir.z / sq (dir.x * dir.x + 0 * 0 + dir.z * dir.z) * r := by field_simp
+    rw [e1, e2]
+    refine ⟨rfl, ?_⟩
+    have hc : (dir.x * s * (dir.x / sq (dir.x * dir.x + 0 * 0 + dir.z * dir.z) * r) + dir.y * s * -hh
+          + dir.z * s * (dir.z / sq (dir.x * dir.x + 0 * 0 + dir.z * dir.z) * r) < dir.y * s * hh) ↔
+        (dir.x * (dir.x / sq (dir.x * dir.x + 0 * 0 + dir.z * dir.z) * r) + dir.y * -hh
+          + dir.z * (dir.z / sq (dir.x * dir.x + 0 * 0 + dir.z * dir.z) * r) < dir.y * hh) := by
+      have ea : dir.x * s * (dir.x / sq (dir.x * dir.x + 0 * 0 + dir.z * dir.z) * r) + dir.y * s * -hh
+          + dir.z * s * (dir.z / sq (dir.x * dir.x + 0 * 0 + dir.z * dir.z) * r)
+          = (dir.x * (dir.x / sq (dir.x * dir.x + 0 * 0 + dir.z * dir.z) * r) + dir.y * -hh
+          + dir.z * (dir.z / sq (dir.x * dir.x + 0 * 0 + dir.z * dir.z) * r)) * s := by ring
+      have eb : dir.y * s * hh = dir.y * hh * s := by ring
+      rw [ea, eb]
+      exact mul_lt_mul_iff_left₀ hs0
+    simp only [hc]
+
 end C10
